@@ -1,5 +1,6 @@
 import SphericalVerif.Model.Operators
 import SphericalVerif.Gen.DiffKern
+import SphericalVerif.Gen.AlgKern
 /-! Line-protocol operations for the differential-operator / conversion model (`none` = unknown op).
     Tokens (after the leading `diff`); doubles are decimal UInt64 bit patterns, complex = `re im`:
       `coef <name> <s> <ell> <m>`                      → one double (or `skip` for `inv` outside its domain)
@@ -103,6 +104,28 @@ def genArrayOp (name : String) (a : Array (Cx Float)) (s ellMin : Int) : Option 
   | "ethbar_inverse_NP" => some (out (Gen.arr_ethbar_inverse_NP_loop (α := Float) 7 s ellMin ellMax copy))
   | _ => none
 
+/-- the GENERATED loops of `Modes.conjugate` / `_real_func` / `_imag_func` (Gen/AlgKern.lean, from spherical/modes/algebra.py);
+    array 7 is the zero-filled output `c`, or, in place, the array `s` itself -/
+def genAlgOp (name : String) (s : Int) (L : Nat) (a : Array (Cx Float)) : Option (Array (Cx Float)) :=
+  let nanF := Float.ofBits 0x7FF8000000000BAD
+  let sin : Int → Cx Float := fun i => if i < 0 then ⟨nanF, nanF⟩ else a.getD i.toNat ⟨nanF, nanF⟩
+  let zeros : HFMem Float := { map := ∅, dflt := 0.0 }
+  let copy : HFMem Float := Id.run do
+    let mut st := zeros
+    for i in [0:a.size] do
+      st := fwrC (α := Float) st 7 (i : Int) (a.getD i ⟨nanF, nanF⟩)
+    return st
+  let LI : Int := L
+  let out (st : HFMem Float) : Array (Cx Float) := (Array.range ((L+1)*(L+1))).map (fun (i : Nat) => frdC (α := Float) st 7 (i : Int))
+  match name with
+  | "conjugate" => some (out (Gen.Modes_conjugate_loop (α := Float) sin 7 LI 0 s zeros))
+  | "conjugate_inplace" => some (out (Gen.Modes_conjugate_inplace_loop (α := Float) 7 LI 0 s copy))
+  | "real" => some (out (Gen.Modes_real_loop (α := Float) sin 7 LI 0 s zeros))
+  | "real_inplace" => some (out (Gen.Modes_real_inplace_loop (α := Float) 7 LI 0 s copy))
+  | "imag" => some (out (Gen.Modes_imag_loop (α := Float) sin 7 LI 0 s zeros))
+  | "imag_inplace" => some (out (Gen.Modes_imag_inplace_loop (α := Float) 7 LI 0 s copy))
+  | _ => none
+
 def arrayOp (name : String) (a : Array (Cx Float)) (s ellMin : Int) : Option (Array (Cx Float)) :=
   match name with
   | "eth_GHP" => some (ethGHP a s ellMin)
@@ -146,6 +169,10 @@ def step (toks : List String) : Option String :=
     let a := parseCx w
     if a.size ≠ n then none else
     let r ← arrayOp name a s ellMin
+    pure (showCx r)
+  | "genalgop" :: name :: s :: ellMax :: w => do
+    let s ← s.toInt?; let ellMax ← ellMax.toNat?
+    let r ← genAlgOp name s ellMax (parseCx w)
     pure (showCx r)
   | "genarrayop" :: name :: s :: ellMin :: n :: w => do
     let s ← s.toInt?; let ellMin ← ellMin.toInt?; let n ← n.toNat?
